@@ -159,6 +159,14 @@ inductive Outcome (α : Type)
   | panic (site : String)
   deriving Repr, Inhabited
 
+/-- Catch conserve errors and panics alike (what a scope guard / `Drop` during unwinding sees). -/
+def Prog.attemptAll {α : Type} : Prog α → Prog (Outcome α)
+  | .ret a => .ret (.ok a)
+  | .fail e => .ret (.err e)
+  | .panic s => .ret (.panic s)
+  | .emit ev k => .emit ev k.attemptAll
+  | .op o k => .op o (fun r => (k r).attemptAll)
+
 /-- Sequential interpreter. -/
 def Prog.run {α : Type} : Prog α → World → Outcome α × World
   | .ret a, w => (.ok a, w)
